@@ -476,8 +476,11 @@ func cmdReplay(args []string) int {
 func minimisePrelude(full []uint64, fails func([]uint64) bool) []uint64 {
 	best := full
 	budget := 120
+	// a prelude of several hundred thousand runs takes a minute per execution: minimising is also
+	// capped by wall-clock time (whatever has been reached by then is a valid, just longer, prelude)
+	deadline := time.Now().Add(5 * time.Minute)
 	try := func(p []uint64) bool {
-		if budget <= 0 {
+		if budget <= 0 || time.Now().After(deadline) {
 			return false
 		}
 		budget--
